@@ -65,6 +65,8 @@ var targets = []target{
 	{"db", "", "FromDbKey", "db_FromDbKey"},
 	{"state", "State", "Down", "state_Down"},
 	{"state", "State", "Up", "state_Up"},
+	{"state", "State", "Where", "state_Where"},
+	{"state", "State", "Depth", "state_Depth"},
 	{"vm", "", "opSplit", "vm_opSplit"},
 	{"vm", "", "instructionSplit", "vm_instructionSplit"},
 }
@@ -214,6 +216,9 @@ func (t *tr) leanType(n ast.Node, ty types.Type) string {
 	case isError(ty):
 		return "String"
 	case isInt(ty):
+		if t.useInt {
+			return "Int"
+		}
 		return "Nat"
 	}
 	if _, ok := bitsOf(ty); ok {
@@ -950,6 +955,9 @@ func translate(repo string, tg target) (string, error) {
 		switch n.(type) {
 		case *ast.IndexExpr, *ast.SliceExpr:
 			t.partial, t.useInt = true, true
+		}
+		if be, ok := n.(*ast.BinaryExpr); ok && be.Op == token.SUB && isInt(t.typeOf(be)) {
+			t.useInt = true // an int difference may be negative
 		}
 		if c, ok := n.(*ast.CallExpr); ok {
 			if id, ok := c.Fun.(*ast.Ident); ok && id.Name == "panic" {
